@@ -256,6 +256,12 @@ class SerializationMethodVisitor(
                     fallback,
                 )
         else:
+            # most specific classes first: an instance of a subclass must not be
+            # taken by the alternative of its parent
+            alternatives = sorted(
+                discriminator.get_mapping(types).items(),
+                key=lambda item: -len(getattr(expected_class(item[1]), "__mro__", ())),
+            )
             return UnionMethod(
                 tuple(
                     DiscriminatedAlternative(
@@ -264,7 +270,7 @@ class SerializationMethodVisitor(
                         self.aliaser(discriminator.alias),
                         key,
                     )
-                    for key, tp in discriminator.get_mapping(types).items()
+                    for key, tp in alternatives
                 ),
                 fallback,
             )
